@@ -359,10 +359,16 @@ func (g *gen) builtin(x *ssa.Call, b *ssa.Builtin, st State, reach string) strin
 		case *types.Basic:
 			g.setVal(x, "(slen "+v.T+")")
 		case *types.Map:
-			k, vv := mapKV(args[0].Type())
-			_, _, size := g.ctx.mapComps(g.ctx.sortOf(k), g.ctx.sortOf(vv))
+			k, _ := mapKV(args[0].Type())
+			_, _, size := g.ctx.mapCompsT(args[0].Type())
 			n := g.define(x.Name(), "Int", "(ite (= "+v.T+" 0) 0 (select "+g.stGet(st, size)+" "+v.T+"))")
 			g.ctx.assume("(>= " + n + " 0)")
+			// a Go map's length is the cardinality of its key set; the one consequence used by code that
+			// prunes empty index entries is: len(m) == 0 iff m has no key (true of every real map)
+			ks := g.ctx.sortOf(k)
+			dom, _, _ := g.ctx.mapCompsT(args[0].Type())
+			d := "(select " + g.stGet(st, dom) + " " + v.T + ")"
+			g.ctx.assume("(=> (not (= " + v.T + " 0)) (= (= " + n + " 0) (forall ((k " + ks + ")) (! (not (select " + d + " k)) :pattern ((select " + d + " k))))))")
 			g.vals[x] = Val{T: n, S: "Int", GoT: x.Type()}
 		case *types.Array:
 			g.setVal(x, fmt.Sprint(args[0].Type().Underlying().(*types.Array).Len()))
@@ -389,16 +395,17 @@ func (g *gen) builtin(x *ssa.Call, b *ssa.Builtin, st State, reach string) strin
 	case "delete":
 		mv, kv := g.val(args[0]), g.val(args[1])
 		k, v := mapKV(args[0].Type())
-		ks, vs := g.ctx.sortOf(k), g.ctx.sortOf(v)
+		ks := g.ctx.sortOf(k)
 		key := kv.T
 		if ks == "Iface" && kv.S != "Iface" {
 			key = g.box(kv, args[1].Type())
 		}
-		dom, _, size := g.ctx.mapComps(ks, vs)
+		dom, val, size := g.ctx.mapCompsT(args[0].Type())
 		was := "(select (select " + g.stGet(st, dom) + " " + mv.T + ") " + key + ")"
-		// delete on nil map is a no-op; writes at ref 0 are harmless (nil map reads are guarded)
+		// delete on nil map is a no-op: the nil map (ref 0) has no keys and zero values already
 		g.locWrite(st, &Loc{Comp: size, Idx: []string{mv.T}}, "(- (select "+g.stGet(st, size)+" "+mv.T+") (ite "+was+" 1 0))")
 		g.locWrite(st, &Loc{Comp: dom, Idx: []string{mv.T, key}}, "false")
+		g.locWrite(st, &Loc{Comp: val, Idx: []string{mv.T, key}}, g.ctx.zero(v)) // keeps the mapWF convention
 	case "min", "max":
 		a := g.val(args[0])
 		t := a.T
@@ -714,7 +721,7 @@ func (g *gen) resolveModifies(m string, fc *FuncContract) []string {
 		if err1 != nil || err2 != nil {
 			return nil
 		}
-		a, b, c := g.ctx.mapComps(g.ctx.sortOf(k), g.ctx.sortOf(v))
+		a, b, c := g.ctx.mapCompsT(types.NewMap(k, v))
 		return []string{a, b, c}
 	}
 	if i := strings.LastIndex(m, "."); i > 0 {
